@@ -66,7 +66,7 @@ def float_decorator(size, id_):
             if not isinstance(value, (float, int, long)):
                 raise ProphyError("not a float")
             try:
-                struct.pack(id_, value)
+                struct.pack('<' + id_, value)
             except (OverflowError, struct.error):
                 raise ProphyError("value: {} out of {}B float's bounds".format(value, size))
             return value
